@@ -219,6 +219,22 @@ theorem pyConstraint_exact_partial {ev : Leaf → Bool} {G : Leaf → Prop} (S :
     (h : gpc m = .ok g) : M.sem ev m = g.allowsPlain (pyV X Y Z) :=
   gpc_exact S X Y Z m g hg hv hL (splitSound_holds X Y Z) hne hpy h
 
+/-- **why `hne` is a hypothesis** (counterexample to the unrestricted exactness statement): when
+`marker.only("python_version", "python_full_version")` is neither universal nor empty but `dnf(marker)` is the
+empty marker, `get_python_constraint_from_marker` answers the *universal* range although the marker holds on no
+environment (`convert_markers` has no `python_version` entry at all, read as "python_version is arbitrary").
+Witness, replayed on the implementation and on the model:
+`MultiMarker.of(parse_marker('python_version < "3.7" or python_version >= "3.9"'),
+parse_marker('python_version == "3.7" or python_version == "3.8"'))` — `only(…)` is the marker itself,
+`dnf` is `<empty>`, the result is `*`.  Markers that `parse_marker` / `intersect` / `union` return are normalised
+through `dnf`, so the case needs `MultiMarker.of` (or `only`) applied to unions. -/
+theorem counterexample_universal_range_for_unsatisfiable_marker {ev : Leaf → Bool} {G : Leaf → Prop}
+    (S : LeafSpec ev G) (m pm : M) (hg : M.Good G m)
+    (ho : m.only Gen.pythonVersionMarkers.reverse = .ok pm) (h1 : pm.isAny = false) (h2 : pm.isEmpty = false)
+    (hd : dnf defaultFuel [] m = .ok .empty) (p : Version) :
+    gpc m = .ok VC.any ∧ M.sem ev m = false ∧ VC.any.allowsPlain p = true :=
+  ⟨gpc_any_of_dnf_empty m pm ho h1 h2 hd, by rw [← (dnf_sound S hg hd).2]; rfl, any_allowsPlain p⟩
+
 /-- the hypotheses are satisfiable on a concrete object: a python item is a `LeafClause` as soon as its truth is
 the reference value of the item (here `python_version >= "3.8"` on CPython 3.8.1), and a one-leaf marker is a
 DNF of python items -/
